@@ -291,6 +291,33 @@ func init() {
 		e.assume(Implies(e.guard(), Ge(e.curState.next, old.next)))
 		errv := Fresh("yamlErr", SIface)
 		e.assumeWF(errv, types.Universe.Lookup("error").Type(), e.curState)
+		// A-YAML: every node has non-negative Line/Column and the elements of its Content list are non-nil
+		if obj := f.Pkg.Pkg.Scope().Lookup("Node"); obj != nil {
+			nodeT := obj.Type()
+			st := nodeT.Underlying().(*types.Struct)
+			r := BoundVar("n", SInt)
+			var facts []*Term
+			for i := 0; i < st.NumFields(); i++ {
+				fld := st.Field(i)
+				l := &Loc{Kind: LField, Ref: r, Struct: nodeT, Field: i, Type: fld.Type()}
+				switch fld.Name() {
+				case "Line", "Column":
+					v := e.loadIn(l, e.curState).(*Term)
+					facts = append(facts, And(Le(IntLit(0), v), Le(v, BigIntLit("4611686018427387904"))))
+				case "Content":
+					sl := e.loadIn(l, e.curState).(*Term)
+					es := sortOf(fld.Type().Underlying().(*types.Slice).Elem())
+					bi := BoundVar("i", SInt)
+					el := e.elemAt(e.curState, sl, bi, es)
+					facts = append(facts, Forall([]*Term{bi}, Implies(And(Le(IntLit(0), bi), Lt(bi, SLen(sl))), Neq(el, IntLit(0))), []*Term{el}))
+				}
+			}
+			if len(facts) > 0 {
+				lineComp := e.curState.Get(fieldComp(nodeT, fieldIndex(st, "Line")), ArraySort(SInt, SInt))
+				e.assume(Implies(e.guard(), Forall([]*Term{r}, And(facts...), []*Term{Select(lineComp, r)})))
+				e.assume(Implies(e.guard(), Forall([]*Term{r}, And(facts...))))
+			}
+		}
 		return errv
 	}}
 	models["(*gopkg.in/yaml.v3.Node).IsZero"] = &Model{Assumption: "A-YAML", Apply: func(e *Exec, f *ssa.Function, c *ssa.CallCommon, args []Val) Val {
@@ -451,6 +478,15 @@ func (e *Exec) bumpErrs() {
 		r.errsGhost = IntLit(0)
 	}
 	r.errsGhost = Ite(e.curReach, Add(r.errsGhost, IntLit(1)), r.errsGhost)
+}
+
+func fieldIndex(st *types.Struct, name string) int {
+	for i := 0; i < st.NumFields(); i++ {
+		if st.Field(i).Name() == name {
+			return i
+		}
+	}
+	return 0
 }
 
 func oneChar(t *Term) bool {
@@ -652,6 +688,7 @@ func (e *Exec) sortInPlace(s *Term, es Sort, cmp func(a, b *Term) *Term) {
 func (e *Exec) newError(msg *Term, wrapped []*Term, typeName string) *Term {
 	r := e.alloc()
 	tag := namedTag(typeName)
+	e.assume(Implies(e.guard(), Eq(RType(r), tag)))
 	ev := MkIface(tag, r)
 	if msg.Sort == SString {
 		e.assume(Implies(e.guard(), Eq(sfn("m_errmsg", SString, ev), msg)))
@@ -864,6 +901,7 @@ func (e *Exec) multierrorAppend2(c *ssa.CallCommon, args []Val) Val {
 	// foreign non-nil error as first argument: not used in this repository
 	e.oblige("pre", "multierror.Append:first-arg-is-multierror-or-nil", Or(isME, isNil), []string{"C08"}, "model restriction")
 	fresh := e.alloc()
+	e.assume(Implies(e.guard(), Eq(RType(fresh), tagOf(st))))
 	e.assumeZeroStruct(fresh, st)
 	res := Ite(isME, IVal(errIn), fresh)
 	loc := &Loc{Kind: LField, Ref: res, Struct: st, Field: errorsIdx, Type: ss.Field(errorsIdx).Type()}
